@@ -218,6 +218,12 @@ def corpus():
   add('C17', 'comparison through the inverse operator (NaN passes)', 'bad', 'R2/helper',
       edit(dp, 'TBRMMDesignParameters._test_value_vs_threshold', lambda n: isinstance(n, ast.Assign) and norm(n.targets[0]) == 'test_ok',
            lambda s, n: "test_ok = specified and not self._test_functions[self._inverse_op[op]](value, bound)"))
+  add('C12', 'a validated range is stored after rounding it outward on a fixed grid', 'bad', 'R6/stored-parameters',
+      edit(dp, 'TBRMMDesignParameters._test_range', lambda n: isinstance(n, ast.Expr) and norm(n).startswith('setattr(self, attr, (int(lower_range)'),
+           lambda s, n: 'setattr(self, attr, (math.floor(lower_range * 100) / 100, math.ceil(upper_range * 100) / 100))'))
+  add('C12', 'benign: the stored integer range is named first', 'benign', None,
+      edit(dp, 'TBRMMDesignParameters._test_range', lambda n: isinstance(n, ast.Expr) and norm(n).startswith('setattr(self, attr, (int(lower_range)'),
+           lambda s, n: 'stored_range = (int(lower_range), int(upper_range))\n          setattr(self, attr, stored_range)'))
   add('C17', 'upper end of an integer range is no longer tested for integrality', 'bad', 'R2/helper',
       edit(dp, 'TBRMMDesignParameters._test_range', lambda n: isinstance(n, ast.BoolOp) and isinstance(n.op, ast.Or) and 'int(upper_range) != upper_range' in norm(n),
            'int(lower_range) != lower_range'))
